@@ -45,6 +45,21 @@ theorem C09_deadline_selection (cfg : Cfg) (now : Nat) (par : Params) :
   unfold effDeadline effTimeout
   cases par.ctxDeadline <;> cases par.callTimeout <;> rfl
 
+/-- **C09_deadline_path_independent.** Whatever way `TarsInvoke` dispatches the call — directly, around
+    pre/post filters, through the legacy single client filter or through the middleware chain — the
+    context `doInvoke` waits on carries exactly the effective deadline.  (Stated over the re-extracted
+    call-site constants: if one dispatch branch of `TarsInvoke` is handed another context than the one
+    assigned by `context.WithTimeout`, this theorem no longer builds.) -/
+theorem C09_deadline_path_independent (cfg : Cfg) (now : Nat) (par : Params) (p : Path) :
+    handedDeadline cfg now par p = some (effDeadline cfg now par) := by
+  have hp : passesInvokeCtx p = true := by cases p <;> decide
+  unfold handedDeadline effDeadline
+  cases par.ctxDeadline <;> simp [hp]
+
+example : handedDeadline ⟨1, 0, 1, 0, 0, 3000⟩ 10 ⟨false, 0, none, some 500⟩ .middleware = some 510 ∧
+    handedDeadline ⟨1, 0, 1, 0, 0, 3000⟩ 10 ⟨false, 0, none, none⟩ .single = some 3010 ∧
+    handedDeadline ⟨1, 0, 1, 0, 0, 3000⟩ 10 ⟨false, 0, some 700, some 500⟩ .prePost = some 700 := by decide
+
 /-- **C09_cleanup** (inductive invariant; all interleavings, all peer behaviours, any number of
     callers).  In every reachable state `queueLen` is the number of calls between `queueLen+1` and the
     deferred `queueLen-1`, `invokeNum` the number of calls between `preInvoke` and `postInvoke`, every
